@@ -29,8 +29,26 @@ SPECIAL = [x.rstrip() for x in SPECIAL if x.rstrip()]
 CHARS = 'abcXYZ019 "\';=-_.\\%,()|>:[]éж中🙂́'
 
 
-def gen_name(rnd):
+# names whose bytes in a legacy 8-bit encoding happen to be valid UTF-8 as well (a server or
+# client that guesses the encoding per line turns them into other names)
+MOJIBAKE = {"latin-1": ["Ã©", "prix Â£5", "Ã¤Ã¶", "Â«xÂ»", "Ã"], "cp1251": ["В«xВ»", "Г©", "Р°Р±", "Ð¿".encode("latin-1", "ignore").decode("latin-1") or "Р°"]}
+
+
+def gen_name(rnd, enc="utf-8"):
+    for _ in range(50):
+        s = _gen_name(rnd, enc)
+        try:
+            s.encode(enc)
+            return s
+        except UnicodeEncodeError:
+            continue
+    return "x"
+
+
+def _gen_name(rnd, enc):
     k = rnd.random()
+    if enc != "utf-8" and k < 0.25:
+        return rnd.choice(MOJIBAKE[enc])
     if k < 0.55:
         s = rnd.choice(SPECIAL)
         if rnd.random() < 0.3:
@@ -47,20 +65,22 @@ def gen_name(rnd):
 def gen_case(seed):
     rnd = random.Random(seed * 9973 + 4)
     depth = rnd.choice([1, 1, 2, 3])
-    return {"seed": seed, "names": [gen_name(rnd) for _ in range(depth)], "file": gen_name(rnd), "file2": gen_name(rnd)}
+    enc = rnd.choice(["utf-8", "utf-8", "utf-8", "latin-1", "cp1251"])
+    return {"seed": seed, "names": [gen_name(rnd, enc) for _ in range(depth)], "file": gen_name(rnd, enc), "file2": gen_name(rnd, enc), "encoding": enc}
 
 
 def run_case(case):
     rng = random.Random(case["seed"] * 7919 + 83)
     net = scenario.random_net(rng, allow_small_pipe=False)
-    sc = {"seed": case["seed"], "server": {"block_size": 64, "wait_future_timeout": 10.0}, "net": net, "fs": {"delay": None}}
+    enc = case.get("encoding", "utf-8")
+    sc = {"seed": case["seed"], "server": {"block_size": 64, "wait_future_timeout": 10.0, "encoding": enc}, "net": net, "fs": {"delay": None}}
     viol = []
     info = {"ops": 0}
     names = case["names"]
     world = scenario.setup_world(sc)
     with world:
         server = scenario.finish_setup(world, sc)
-        client = aioftp.Client(path_io_factory=aioftp.MemoryPathIO)
+        client = aioftp.Client(path_io_factory=aioftp.MemoryPathIO, encoding=enc)
         P = pathlib.PurePosixPath
 
         def bad(clause, op, detail):
@@ -220,6 +240,7 @@ def run_case(case):
             "steps": world.loop.steps,
             "outcome": world.outcome,
             "counters": {"client_operations_checked": info["ops"]},
+            "groups": {"encoding": {enc: 1}},
             "violations": out,
         }
         if case.get("want_sample"):
